@@ -132,8 +132,18 @@ func (state *State) NextBlock() wire.Block {
 	state.pendingBlockSize -= state.blocksRequested[0].size
 	state.lastSavedHash = state.blocksRequested[0].hash
 	state.blocksRequested = state.blocksRequested[1:] // Remove first item
+	state.processingBlock = true
 
 	return result
+}
+
+// BlockProcessed is called when the block returned by NextBlock has been processed. Until then it
+// still counts as an outstanding block request, because it is not in the block repo yet.
+func (state *State) BlockProcessed() {
+	state.lock.Lock()
+	defer state.lock.Unlock()
+
+	state.processingBlock = false
 }
 
 func (state *State) GetNextBlockToRequest() (*bitcoin.Hash32, int) {
@@ -174,7 +184,11 @@ func (state *State) TotalBlockRequestCount() int {
 	state.lock.Lock()
 	defer state.lock.Unlock()
 
-	return len(state.blocksRequested) + len(state.blocksToRequest)
+	result := len(state.blocksRequested) + len(state.blocksToRequest)
+	if state.processingBlock {
+		result++
+	}
+	return result
 }
 
 func (state *State) BlockRequestsEmpty() bool {
